@@ -354,6 +354,17 @@ func (endp *Endpoint) setupListeners(addresses []config.Endpoint) error {
 }
 
 func (endp *Endpoint) NewSession(conn *smtp.Conn) (smtp.Session, error) {
+	// The pinned go-smtp replaces the session on a repeated EHLO/LHLO without
+	// calling Logout on the previous one: abort its delivery, return its
+	// permits and fix the session counter here.
+	if conn != nil {
+		if old, ok := conn.Session().(*Session); ok && old != nil {
+			if err := old.Logout(); err != nil {
+				endp.Log.Error("logout of the replaced session failed", err)
+			}
+		}
+	}
+
 	sess := endp.newSession(conn)
 
 	// Executed before authentication and session initialization.
